@@ -254,6 +254,7 @@ class FolderObservation(AbstractObservation, discriminator="folder"):
         if self.files:
             obs["FILES"] = {i + 1: file.observe(state) for i, file in enumerate(self.files)}
 
+        self.cached_obs = obs  # remember the last reported health until the next scan completes
         return obs
 
     @property
